@@ -349,6 +349,18 @@ func init() {
 				return cmdParamsFailCase(c)
 			case 4:
 				return missingTagCase(c)
+			case 6:
+				// several processes without out-ports (the library documents that it
+				// refuses such a workflow; if it runs it, a failure in any of them must
+				// still stop the program)
+				w = &WF{Name: "wf", Sources: map[string]string{}, MaxTasks: 2 + c.Tape.Choose(simrt.StGen, 3, 0), Bufsize: bufsizeOf(c.Tape)}
+				e := Edge{srcNode(w, "src0", 1+c.Tape.Choose(simrt.StGen, 3, 0), ""), "out"}
+				pre := oneToOne(w, "pre", e)
+				for _, nm := range []string{"enda", "endb", "endc"}[:2+c.Tape.Choose(simrt.StGen, 2, 0)] {
+					// (an output nobody consumes would make it an ordinary leaf: none)
+					addNode(w, Node{Name: nm, Kind: KProc, Cores: 1, Ins: []InSpec{{Name: "a", From: []Edge{{pre, "o0"}}}}})
+				}
+				c.Probe("several-sinkless-leaves")
 			case 5:
 				// tasks of one process whose inputs differ only in the directory: a failing
 				// one must not get its unfinished output out through a sibling
@@ -370,8 +382,11 @@ func init() {
 			ex := Eval(w)
 			var cands []*RTask
 			for _, t := range ex.Tasks {
-				if len(t.Outs) > 0 {
+				if len(t.Outs) > 0 && w.NodeByName("enda") == nil {
 					cands = append(cands, t)
+				}
+				if strings.HasPrefix(t.Proc, "end") && w.NodeByName("enda") != nil {
+					cands = append(cands, t) // (the victim is a task of one of the leaves)
 				}
 			}
 			if len(cands) == 0 {
@@ -536,6 +551,9 @@ func init() {
 			if victim == nil {
 				victim = cands[c.Tape.Choose(simrt.StFault, len(cands), 0)]
 				mode := simrt.FailMode(1 + kind)
+				if len(victim.Outs) == 0 && (mode == simrt.FailOmit || mode == simrt.FailExitPartial) {
+					mode = simrt.FailExitAfter // (a task without outputs has nothing to omit or to write partly)
+				}
 				for _, p := range victim.Outs {
 					if ex.StreamPaths[Abs(p)] && mode == simrt.FailOmit {
 						// "not producing" a streamed output means never opening the FIFO:
